@@ -63,6 +63,9 @@ type caller struct {
 type queue struct {
 	mu      sync.Mutex
 	callers []*caller
+	// retired is set, under mu, when the last caller left: the queue is then
+	// dropped from lock.queues and must not take new callers.
+	retired bool
 }
 
 func newQueue() *queue {
@@ -71,20 +74,27 @@ func newQueue() *queue {
 
 // enqueue appends a new caller. If it lands at the head (queue was empty),
 // its ready channel is pre-closed so it can proceed immediately.
-func (q *queue) enqueue(c *caller) {
+// It returns false, without enqueueing, if the queue has been retired.
+func (q *queue) enqueue(c *caller) bool {
 	q.mu.Lock()
 	defer q.mu.Unlock()
+	if q.retired {
+		return false
+	}
 	wasEmpty := len(q.callers) == 0
 	q.callers = append(q.callers, c)
 	if wasEmpty {
 		close(c.ready)
 	}
+	return true
 }
 
 // remove deletes the caller with the given id from the queue. If the removed
 // caller was at the head, the next caller's ready channel is closed so it can
-// proceed. Returns true if the caller was found.
-func (q *queue) remove(id string) bool {
+// proceed. found reports whether the caller was in the queue; retired reports
+// that it was the last one, in which case the queue is closed for new callers
+// and the caller of remove drops it from lock.queues.
+func (q *queue) remove(id string) (found, retired bool) {
 	q.mu.Lock()
 	defer q.mu.Unlock()
 	for i, c := range q.callers {
@@ -101,9 +111,23 @@ func (q *queue) remove(id string) bool {
 			// Wake the next waiter.
 			close(q.callers[0].ready)
 		}
-		return true
+		if len(q.callers) == 0 {
+			q.retired = true
+		}
+		return true, q.retired
 	}
-	return false
+	return false, false
+}
+
+// release removes the caller from the key's queue and forgets the queue once
+// its last caller has left, so that lock.queues does not grow with every key
+// that was ever locked.
+func (l *lock) release(key string, q *queue, id string) bool {
+	found, retired := q.remove(id)
+	if retired {
+		l.queues.CompareAndDelete(key, q)
+	}
+	return found
 }
 
 func (l *lock) getQueue(key string) *queue {
@@ -124,7 +148,11 @@ func (l *lock) Lock(ctx context.Context, key string, ttl time.Duration) (lockID 
 	}
 
 	q := l.getQueue(key)
-	q.enqueue(c)
+	for !q.enqueue(c) {
+		// the queue was retired between the lookup and the enqueue
+		l.queues.CompareAndDelete(key, q)
+		q = l.getQueue(key)
+	}
 
 	// Wait until either we become the head of the queue (ready closed),
 	// or the caller's context is done.
@@ -140,7 +168,7 @@ func (l *lock) Lock(ctx context.Context, key string, ttl time.Duration) (lockID 
 			defer t.Stop()
 			select {
 			case <-t.C:
-				q.remove(lockID)
+				l.release(key, q, lockID)
 			case <-c.done:
 				// Unlock (or another remove) already took us out;
 				// no work for the watchdog.
@@ -170,7 +198,7 @@ func (l *lock) Unlock(key string, lockID string) error {
 		return errors.New("caller not found")
 	}
 	q := v.(*queue)
-	if !q.remove(lockID) {
+	if !l.release(key, q, lockID) {
 		return errors.New("caller not found")
 	}
 	return nil
